@@ -2,6 +2,7 @@
 namespace SdnsVerif.Gen.C08
 
 def lease_ceiling_ns : Nat := 43200000000000
+def max_denial_proof_ttl_ns : Nat := 10800000000000
 def maximumTTL_ns : Nat := 43200000000000
 def mono_delegation_set : Bool := true
 def mono_delegation_setuntil : Bool := true
